@@ -413,6 +413,12 @@ func (g *Gen) Step() {
 				if n.dir {
 					perm = Pick(r, []int{0o700, 0o755, 0o777, 0o711})
 				}
+				if n.dir && r.Chance(1, 4) {
+					// the sticky bit (Go's encoding 1<<20) of a directory: set by one Chmod, it is gone after
+					// the next one that does not name it (setgid is inherited by new sub-directories on Linux and
+					// setuid/setgid of files are cleared by writes: not portable, not generated)
+					perm |= 1 << 20
+				}
 				g.emit(-1, "Chmod %s %d", g.hxp(p), perm)
 				n.permExplicit = true
 				return
@@ -515,7 +521,13 @@ func (g *Gen) handleOp() bool {
 		g.emit(-1, "HWrite %d %s", s, hx(pay))
 	case 6:
 		if !h.canW {
-			return false
+			// a write refused by a read-only handle changes nothing, the handle's offset included
+			if !h.canR || !r.Chance(1, 2) {
+				return false
+			}
+			g.emit(-1, "HWriteAt %d %s %d", s, hx(pay), r.Range(0, 12))
+			g.emit(-1, "HSeek %d 0 1", s)
+			return true
 		}
 		g.emit(-1, "HWriteAt %d %s %d", s, hx(pay), r.Range(0, 12))
 	case 7:
